@@ -12,6 +12,7 @@ import (
 	"net/http"
 	"net/http/httptest"
 	"net/url"
+	"os"
 	"sort"
 	"strings"
 	"testing"
@@ -421,8 +422,65 @@ func vC04ExpiryAfterStart(t *testing.T, out *vEmitter) {
 	}
 }
 
+// vC04SeveralExtraIssuers: several extra JWT issuers in one configuration - one without a discovery document (its keys
+// at the conventional jwks.json), one with discovery and a key set of its own, in both orders.  A bearer token is
+// accepted iff it is signed by a key OF THE ISSUER IT NAMES: the key set of a neighbouring issuer never vouches for it.
+func vC04SeveralExtraIssuers(t *testing.T, out *vEmitter) {
+	vKeys()
+	const nodisc, idp3 = "https://nodisc.example", "https://idp3.example"
+	for _, order := range [][]string{{nodisc, idp3}, {idp3, nodisc}, {idp3}, {nodisc}} {
+		order := order
+		var specs []string
+		for _, iss := range order {
+			specs = append(specs, iss+"="+clientID)
+		}
+		e := vTryNewEnv(t, vEnvCfg{oidc: true, mod: func(o *options.Options) {
+			o.SkipJwtBearerTokens = true
+			o.ExtraJwtIssuers = specs
+			o.Providers[0].OIDCConfig.InsecureSkipNonce = true
+		}})
+		if e == nil {
+			out.Violation("oidc/extra-issuer-config-refused", "a configuration with several extra JWT issuers does not validate", map[string]interface{}{"extra_jwt_issuers": specs})
+			continue
+		}
+		keyOf := map[string]*vKey{nodisc: vKeyRSA, idp3: vKeyRSA2}
+		configured := map[string]bool{}
+		for _, iss := range order {
+			configured[iss] = true
+		}
+		accepted := 0
+		for _, iss := range []string{nodisc, idp3} {
+			for kn, key := range map[string]*vKey{"first-key-set": vKeyRSA, "second-key-set": vKeyRSA2} {
+				kid := map[*vKey]string{vKeyRSA: "rsa1", vKeyRSA2: "rsa2"}[key]
+				_ = kid
+				raw := vJWT(key, "RS256", vClaims("user@example.com", map[string]interface{}{"iss": iss}))
+				req, err := vRawRequest(vBuildRaw("GET", "/oauth2/auth", "app.example.com", [][2]string{{"Authorization", "Bearer " + raw}}, ""))
+				if err != nil {
+					continue
+				}
+				res := e.serve(req)
+				got := res.Status == 202
+				want := configured[iss] && keyOf[iss] == key
+				if got {
+					accepted++
+				}
+				out.Obs("several-extra-issuers", true, vL(vStrs(order), vS(iss), vS(kn), vI(int64(res.Status))))
+				out.Stat("several_extra_issuers_tokens", 1)
+				if got != want {
+					out.Violation("oidc/session-from-unverified-token", "a bearer token was accepted although it is not signed by a key of the issuer it names (or refused although it is)",
+						map[string]interface{}{"extra_jwt_issuers": specs, "token_issuer": iss, "signed_with": kn, "issuer_key_set": map[string]string{nodisc: "first-key-set", idp3: "second-key-set"}[iss], "status": res.Status})
+				}
+			}
+		}
+		if accepted == 0 {
+			out.Violation("control/no-bearer-token-accepted", "no token of a configured extra issuer was accepted: the sweep checks nothing", map[string]interface{}{"extra_jwt_issuers": specs})
+		}
+	}
+}
+
 func driveC04(t *testing.T, out *vEmitter) {
 	vKeys()
+	defer vC04SeveralExtraIssuers(t, out)
 	defer vC04ExpiryAfterStart(t, out)
 	defer vC04BearerSequence(t, out)
 	defer vC04ExtraIssuerAudiences(t, out)
@@ -743,6 +801,7 @@ func driveC05(t *testing.T, out *vEmitter) {
 	vKeys()
 	defer vC05MethodSpellings(t, out)
 	defer vC05ReplayedToken(t, out)
+	defer vC05LegacyLoaded(t, out)
 	defer vC05AlphaConfig(t, out)
 	defer vC05GenericPKCE(t, out)
 	vC05Legacy(t, out)
@@ -1773,6 +1832,80 @@ func vC05ReplayedToken(t *testing.T, out *vEmitter) {
 				if issued {
 					out.Violation("pkce-nonce/session-with-wrong-nonce", "a session was issued although the ID token does not carry this login's hashed nonce",
 						map[string]interface{}{"provider": kind, "csrf_per_request": perReq, "id_token": "the byte-identical token that completed an earlier login", "login": who, "attempt": i, "status": cb.Status})
+				}
+			}
+		}
+	}
+}
+
+// vC05LegacyLoaded: the legacy OIDC switches (insecure-oidc-skip-nonce, insecure-oidc-skip-issuer-verification,
+// code-challenge-method) given on the command line, in a configuration file and in the environment, loaded by main's
+// own loader: each switch reaches ITS option, and a login with another login's nonce is refused exactly when nonce
+// checking was asked for.
+func vC05LegacyLoaded(t *testing.T, out *vEmitter) {
+	base := []string{"--provider=oidc", "--client-id=" + clientID, "--client-secret=" + clientSecret, "--oidc-issuer-url=" + vIssuer, "--skip-oidc-discovery=true",
+		"--oidc-jwks-url=" + vIssuer + "/jwks", "--login-url=" + vIssuer + "/authorize", "--redeem-url=" + vIssuer + "/token", "--upstream=static://200",
+		"--email-domain=*", "--cookie-secret=OQINaROshtE9TcZkNAm-5Zs2Pv3xaWytBmc5W7sPX7w="}
+	for _, form := range []string{"flags", "config-file", "environment"} {
+		for _, skipNonce := range []string{"omitted", "false", "true"} {
+			for _, skipIssuer := range []string{"omitted", "true"} {
+				args := append([]string(nil), base...)
+				toml := ""
+				env := map[string]string{}
+				set := func(flag, v string) {
+					if v == "omitted" {
+						return
+					}
+					switch form {
+					case "flags":
+						args = append(args, "--"+flag+"="+v)
+					case "config-file":
+						toml += strings.ReplaceAll(flag, "-", "_") + "=" + v + "\n"
+					default:
+						env["OAUTH2_PROXY_"+strings.ToUpper(strings.ReplaceAll(flag, "-", "_"))] = v
+					}
+				}
+				set("insecure-oidc-skip-nonce", skipNonce)
+				set("insecure-oidc-skip-issuer-verification", skipIssuer)
+				cf := ""
+				if toml != "" {
+					cf = vWriteFile("c05-legacy-loaded.toml", toml)
+				}
+				for k, v := range env {
+					os.Setenv(k, v)
+				}
+				loaded, err := loadConfiguration(cf, "", pflag.NewFlagSet("verif", pflag.ContinueOnError), args)
+				for k := range env {
+					os.Unsetenv(k)
+				}
+				if err != nil {
+					out.Violation("pkce-nonce/legacy-options-not-loaded", "legacy OIDC options in a documented form were refused by the loader", map[string]interface{}{"form": form, "error": err.Error()})
+					continue
+				}
+				wantSkipNonce := skipNonce != "false" // the legacy default skips the nonce check
+				wantSkipIssuer := skipIssuer == "true"
+				oc := loaded.Providers[0].OIDCConfig
+				det := map[string]interface{}{"form": form, "insecure_oidc_skip_nonce": skipNonce, "insecure_oidc_skip_issuer_verification": skipIssuer,
+					"loaded_skip_nonce": oc.InsecureSkipNonce, "loaded_skip_issuer_verification": oc.InsecureSkipIssuerVerification}
+				out.Obs("legacy-loaded-oidc", true, vL(vS(form), vS(skipNonce), vS(skipIssuer), vBool(oc.InsecureSkipNonce), vBool(oc.InsecureSkipIssuerVerification)))
+				out.Stat("c05_legacy_loaded_configs", 1)
+				if oc.InsecureSkipNonce != wantSkipNonce || oc.InsecureSkipIssuerVerification != wantSkipIssuer {
+					out.Violation("pkce-nonce/option-reaches-another-switch", "a legacy OIDC switch given in a documented form did not reach its own option", det)
+				}
+				e := vTryNewEnv(t, vEnvCfg{mod: func(o *options.Options) { o.Providers = loaded.Providers }})
+				if e == nil {
+					continue
+				}
+				b := e.newBrowser("https://app.example.com")
+				l := b.start("/x")
+				e.idp.onToken = func(url.Values) (int, string, string, error) {
+					return 200, "application/json", vTokenJSON(vJWT(vKeyRSA, "RS256", vClaims("user@example.com", map[string]interface{}{"nonce": "some-other-logins-hashed-nonce"})), "at", "rt", 3600), nil
+				}
+				cb := b.callback(l.State, "code")
+				issued := e.sessionCookieSet(cb)
+				det["nonce_sent"], det["session"] = l.Nonce != "", issued
+				if skipNonce == "false" && (issued || l.Nonce == "") {
+					out.Violation("pkce-nonce/session-with-wrong-nonce", "a session was issued although the ID token does not carry this login's hashed nonce", det)
 				}
 			}
 		}
